@@ -122,11 +122,13 @@ struct Hist<T: Elem> {
     real: PushStack<T>,
     model: Vec<T>, // top = last
     next: i32,
+    /// sparse observation: while set, an op is applied to both sides and only its own return value is compared
+    quiet: bool,
 }
 
 impl<T: Elem> Hist<T> {
     fn new(init: usize) -> Self {
-        let mut h = Hist { real: PushStack::new(), model: vec![], next: 100 };
+        let mut h = Hist { real: PushStack::new(), model: vec![], next: 100, quiet: false };
         for _ in 0..init {
             let e: T = h.fresh();
             h.real.push(e.clone());
@@ -346,6 +348,9 @@ impl<T: Elem> Hist<T> {
                 self.model = copy;
             }
         }
+        if self.quiet {
+            return Ok(());
+        }
         // full observation after the op
         if self.real.size() != self.model.len() {
             return Err(format!("size {} but model has {}", self.real.size(), self.model.len()));
@@ -513,6 +518,55 @@ pub fn run(ctx: &mut Ctx) {
             ctx.rec.sample("random-history", &format!("{:?}", &h[..40]));
         }
     }
+    // sparse observation: read everything once, apply EXACTLY W operations without reading the stack back (only the
+    // ops' own return values are compared), read everything again. A size / printout cached under a narrow
+    // revision counter is stale only if a multiple of 2^8 / 2^16 operations lies between two reads, and a monitor
+    // that reads after every operation refreshes it every time.
+    // (every stretch length up to 600 as well, for 8-bit counters that advance more than once per operation)
+    let mut widths: Vec<usize> = if ctx.is_fuzz() { vec![255, 256, 257] } else { vec![65535, 65536, 65537, 131072] };
+    if !ctx.is_fuzz() {
+        widths.extend(1..=600usize);
+    }
+    for (wi, w) in widths.iter().enumerate() {
+        for variant in 0..4u64 {
+            case += 1;
+            if !ctx.mine(case) {
+                continue;
+            }
+            fn stretch<T: Elem>(r: &mut Rng, w: usize, variant: u64, alphabet: &[Op]) -> Result<(), String> {
+                let mut h: Hist<T> = Hist::new(3);
+                h.apply(&Op::Get(0))?; // full read
+                h.quiet = true;
+                for j in 0..w {
+                    let op = if variant < 2 {
+                        // pure mutators, net growth: pushes and pops 2 : 1 (every one changes the stack)
+                        if j % 3 == 2 { Op::Pop } else { Op::Push }
+                    } else {
+                        let o = r.pick(alphabet).clone();
+                        // keep the stretch cheap: no bulk rebuilds
+                        if matches!(o, Op::FromVec(_) | Op::CloneFrom(_) | Op::PushVec(_) | Op::Flush) { Op::Push } else { o }
+                    };
+                    h.apply(&op)?;
+                }
+                h.quiet = false;
+                h.apply(&Op::Get(0)) // full read again
+            }
+            let mut r = Rng::derive(ctx.seed, &[16, 99, wi as u64, variant]);
+            let alphabet = all_ops(5);
+            ctx.rec.case_marker(case, "sparse observation");
+            let (res, ty) = if variant % 2 == 0 { (guarded(|| stretch::<i32>(&mut r, *w, variant, &alphabet)), "i32") } else { (guarded(|| stretch::<Item>(&mut r, *w, variant, &alphabet)), "Item") };
+            ctx.rec.count("ops", *w as u64 + 2);
+            ctx.rec.count("sparse_observation_stretches", 1);
+            ctx.rec.max("sparse_observation_longest_unobserved_stretch", *w as u64);
+            ctx.rec.cover(&format!("sparse|{}|W{}|v{}", ty, if *w <= 600 { (*w / 100) * 100 } else { *w }, variant));
+            match res {
+                Ok(Ok(())) => {}
+                Ok(Err(t)) => ctx.rec.violation("C16", &format!("PushStack<{}>|sparse-observation|mismatch", ty), &format!("{} ; read, then {} unobserved operations (variant {}), then read again", t.chars().take(600).collect::<String>(), w, variant), ""),
+                Err(p) => ctx.rec.violation("C16", &format!("PushStack<{}>|sparse-observation|panic|{}", ty, panic_sig(&p)), &p, ""),
+            }
+        }
+    }
+    ctx.rec.checkpoint();
     // huge stacks (thousands of elements): thresholds, caps and fast paths only show there
     let nh = ctx.n(24, 200);
     for j in 0..nh as u64 {
